@@ -8,12 +8,12 @@ Definition prompt_allowed : list bytes := [[108;111;103;105;110]; [115;101;108;1
 
 Definition mk_acfg (key : N) (ings : list ingress) (client_id issuer acr_default : bytes) (acr_supported : list bytes)
            (locale_default : bytes) (locale_supported : list bytes) (scope resource : bytes)
-           (par use_secret iss_supported strict : bool) : acfg :=
+           (par use_secret iss_supported strict seg : bool) : acfg :=
   {| a_key := key; a_ingresses := ings; a_client_id := client_id; a_issuer := issuer;
      a_acr_default := acr_default; a_acr_supported := acr_supported; a_acr_legacy := acr_legacy_mapping;
      a_locale_default := locale_default; a_locale_supported := locale_supported;
      a_prompt_allowed := prompt_allowed; a_scope := scope; a_resource := resource;
-     a_par := par; a_use_secret := use_secret; a_iss_supported := iss_supported; a_cookie_strict := strict |}.
+     a_par := par; a_use_secret := use_secret; a_iss_supported := iss_supported; a_cookie_strict := strict; a_seg_prefix := seg |}.
 
 Definition entry_login (c : acfg) (q : areq) (rnd : N) (referer par_uri : sval) : list login_out :=
   login_results c q rnd referer par_uri.
